@@ -10,9 +10,12 @@ CONSTANTS
   Targets = {1, 2}
   DnsPort = {2, 6}
   Allowed = {1, 2}
+  Unsendable = {}
+  DisarmFirst = TRUE
   Fam <- MCFam
   DgAlpha <- DgLong
   RpAlpha <- RpC14
+  MidAlpha <- NoMid
   Sync = FALSE
   T = 2
   DNST = 3
